@@ -361,6 +361,15 @@ fn text_route(st: &mut Stats, t: &Tt, n: u32) {
         format!("(({}) | false) & true", dnf),
         format!("(({}) ^ false) <=> true", dnf),
         format!("-({}) => -true", dnf),
+        // the bound name of a fixed point in every position of a counting comparison (right list,
+        // left list, both, inside an operand); all of them stabilise at F after two rounds
+        format!("lfp Zfix # ({}) | ([true] <= [Zfix])", dnf),
+        format!("gfp Zfix # ({}) & ([true, true] <= [Zfix, true])", dnf),
+        format!("lfp Zfix # [true] <= [Zfix, ({})]", dnf),
+        format!("gfp Zfix # [Zfix, ({})] > [true]", dnf),
+        format!("lfp Zfix # [Zfix | ({})] = [true]", dnf),
+        format!("gfp Zfix # [true, true] < [true, Zfix, ({})]", dnf),
+        format!("lfp Zfix # [Zfix, ({})] >= 1", dnf),
     ];
     for text in texts {
         text_route_one(st, t, n, &text, &ordering);
@@ -806,7 +815,7 @@ pub fn run(ctx: &Ctx) -> (Stats, Spec) {
     st.merge(crate::report::merge_all(parts));
 
     let spec = Spec {
-        rule: "each Boolean function (all over 3 variables; every 2nd [quick] / all [thorough] over 4; random over 5-7 sparse labels incl. usize::MAX) is built by 18 independent routes through the public API (operands from another environment handed to an operation [or, absorption, ite], mk_choice, DNF, CNF, Shannon/ite, xor detour, double negation, absorption, De Morgan via nor/nand, quantifier detour, counting detour, fixed-point detour, model of minterms, retain(Any)+clean, operand-order split) alternating between two environments, plus the formula language; and random sequences of API calls (connectives, ite, quantifiers, counting over lists of plain variables in arbitrary order and compound operands, model, fp, retain, clean, exists_impl) whose every result is compared with the canonical diagram of its own truth table; distinct = (table, route, family); non-trivial = non-constant table with >= 2 support variables. MANY VARIABLES: the same judgement on environments with 65-200 variables (more than a machine word of them), where operands are random DNFs and results are compared pointwise on 48 sampled assignments per case (biased towards the operands' cubes) and walked for order / reduction.".into(),
+        rule: "each Boolean function (all over 3 variables; every 2nd [quick] / all [thorough] over 4; random over 5-7 sparse labels incl. usize::MAX) is built by 18 independent routes through the public API (operands from another environment handed to an operation [or, absorption, ite], mk_choice, DNF, CNF, Shannon/ite, xor detour, double negation, absorption, De Morgan via nor/nand, quantifier detour, counting detour, fixed-point detour (also with the bound name in the left / right list of counting comparisons), model of minterms, retain(Any)+clean, operand-order split) alternating between two environments, plus the formula language; and random sequences of API calls (connectives, ite, quantifiers, counting over lists of plain variables in arbitrary order and compound operands, model, fp, retain, clean, exists_impl) whose every result is compared with the canonical diagram of its own truth table; distinct = (table, route, family); non-trivial = non-constant table with >= 2 support variables. MANY VARIABLES: the same judgement on environments with 65-200 variables (more than a machine word of them), where operands are random DNFs and results are compared pointwise on 48 sampled assignments per case (biased towards the operands' cubes) and walked for order / reduction.".into(),
         assumptions: vec![
             "'hash equal' is demanded only in the direction same function => same hash; collisions between different functions are counted, not reported".into(),
             "FxHash collisions on usize labels are not constructed here; hash-for-equality confusions are exercised through a constant-hash symbol type in C03 / C04 / C05 / C06 / C07 / C20".into(),
